@@ -18,11 +18,13 @@ import (
 	"go.flow.arcalot.io/engine/config"
 	"go.flow.arcalot.io/engine/internal/builtinfunctions"
 	"go.flow.arcalot.io/engine/internal/step"
+	"go.flow.arcalot.io/engine/loadfile"
 	"go.flow.arcalot.io/engine/workflow"
 )
 
 type runSpec struct {
-	Input         any `json:"input"`
+	Input         any    `json:"input"`
+	InputYAML     string `json:"input_yaml"` // engine mode: the input file content
 	CancelAfterMS int `json:"cancel_after_ms"` // 0 = never by timer (triggers may still cancel)
 	StartDelayMS  int `json:"start_delay_ms"`
 }
@@ -40,6 +42,10 @@ type scenario struct {
 	PrepareN   int                    `json:"prepare_n"` // prepare the workflow this many extra times (unused copies)
 	SettleMS   int                    `json:"settle_ms"`
 	MaxStackMB int                    `json:"max_stack_mb"`
+	// engine mode: go through engine.New / Parse / Run (the embeddable API the CLI uses)
+	Engine     bool   `json:"engine"`
+	ContextDir string `json:"context_dir"` // "" = in-memory file cache; else a directory holding the files (abs or relative)
+	Cwd        string `json:"cwd"`         // chdir here first
 }
 
 type runResult struct {
@@ -48,6 +54,7 @@ type runResult struct {
 	DType     string            `json:"dtype"`
 	Err       string            `json:"err"`
 	IsErr     bool              `json:"is_err"`
+	ErrFlag   bool              `json:"err_flag"` // engine mode: the outputIsError flag
 	ElapsedMS float64           `json:"elapsed_ms"`
 	CancelMS  float64           `json:"cancel_ms"` // time of caller cancellation relative to run start, -1 if none
 	AfterMS   float64           `json:"after_cancel_ms"`
@@ -188,7 +195,13 @@ func cmdRun(path string) int {
 	}
 	wfs := newConformance(snk)
 	_ = wfs
-	pw, err := prepare(reg, cfg, logger, sc.Files, sc.Main)
+	var pw workflow.ExecutableWorkflow
+	var ew engine.Workflow
+	if sc.Engine {
+		ew, err = engineParse(book, &sc)
+	} else {
+		pw, err = prepare(reg, cfg, logger, sc.Files, sc.Main)
+	}
 	if err != nil {
 		res.PrepareErr = err.Error()
 		close(done)
@@ -196,7 +209,7 @@ func cmdRun(path string) int {
 		res.Leaks = leaked
 		return finish(0)
 	}
-	for i := 0; i < sc.PrepareN; i++ {
+	for i := 0; i < sc.PrepareN && !sc.Engine; i++ {
 		if _, err := prepare(reg, cfg, logger, sc.Files, sc.Main); err != nil {
 			res.Info["extra_prepare_err"] = err.Error()
 		}
@@ -240,7 +253,16 @@ func cmdRun(path string) int {
 				t := time.AfterFunc(time.Duration(rs.CancelAfterMS)*time.Millisecond, doCancel)
 				defer t.Stop()
 			}
-			oid, data, err := pw.Execute(ctx, rs.Input)
+			var oid string
+			var data any
+			var err error
+			if sc.Engine {
+				var isErr bool
+				oid, data, isErr, err = ew.Run(ctx, []byte(rs.InputYAML))
+				rr.ErrFlag = isErr
+			} else {
+				oid, data, err = pw.Execute(ctx, rs.Input)
+			}
 			el := time.Since(startT)
 			rr.ElapsedMS = float64(el.Microseconds()) / 1000
 			cmu.Lock()
@@ -285,4 +307,43 @@ func settle(ms int) (string, []string) {
 		}
 		time.Sleep(5 * time.Millisecond)
 	}
+}
+
+
+func engineParse(book *scriptBook, sc *scenario) (engine.Workflow, error) {
+	if sc.Cwd != "" {
+		if err := os.Chdir(sc.Cwd); err != nil {
+			return nil, err
+		}
+	}
+	engine.DefaultDeployerRegistry = deployerregistry.New(deployer.Any[*scriptedConfig](scriptedFactory{book: book}))
+	cfg := &config.Config{
+		LocalDeployers: map[string]any{"scripted": map[string]any{"deployer_name": "scripted"}},
+		Log:            log.Config{Level: log.LevelError, Destination: log.DestinationStdout},
+	}
+	eng, err := engine.New(cfg)
+	if err != nil {
+		return nil, err
+	}
+	var fc loadfile.FileCache
+	if sc.ContextDir == "" {
+		contents := map[string][]byte{}
+		for k, v := range sc.Files {
+			contents[k] = []byte(v)
+		}
+		fc = loadfile.NewFileCache("", contents)
+	} else {
+		fc, err = loadfile.NewFileCacheUsingContext(sc.ContextDir, map[string]string{"workflow": sc.Main})
+		if err != nil {
+			return nil, err
+		}
+		if err := fc.LoadContext(); err != nil {
+			return nil, err
+		}
+	}
+	key := sc.Main
+	if sc.ContextDir != "" {
+		key = "workflow"
+	}
+	return eng.Parse(fc, key)
 }
